@@ -361,7 +361,7 @@ Section Tracker.
         [apply Permutation_sym|]; apply sorted_perm. }
     destruct (trk_cleanup_scan now T L (Some o) []) as [o' del] eqn:ES.
     destruct (scan_spec _ _ _ _ _ _ _ SS ES) as (D & O).
-    destruct (pop_all_spec del (with_oldest (mkTracker d (Some T) ord (Some o) br) o') ND KEY) as (calls & E & C).
+    destruct (pop_all_spec del (mkTracker d (Some T) ord (Some o) br) ND KEY) as (calls & E & C).
     simpl in E, C. rewrite E. exists del, o', calls.
     assert (EXACT : forall k tr, In (k, tr) d -> (In k del <-> T <= now - tr_lu tr)).
     { intros k tr H. rewrite D. split.
@@ -445,6 +445,19 @@ Section Tracker.
     trk_set_oldest_timestamp
       (with_tracks st (without (Z.eqb m) (t_tracks st) ++ [(m, upd_result st m new)])) (tr_lu new).
 
+  (* insert_or_update lowers the cache before insert_track and once more after it: the second time changes nothing *)
+  Lemma set_oldest_absorb (st : tracker) d ts :
+    trk_set_oldest_timestamp (with_tracks (trk_set_oldest_timestamp st ts) d) ts =
+    trk_set_oldest_timestamp (with_tracks st d) ts.
+  Proof.
+    unfold trk_set_oldest_timestamp, with_tracks, with_oldest. destruct (t_oldest st) as [o|]; simpl.
+    - now rewrite <- Z.min_assoc, Z.min_id.
+    - now rewrite Z.min_id.
+  Qed.
+
+  Lemma set_oldest_tracks (st : tracker) ts : t_tracks (trk_set_oldest_timestamp st ts) = t_tracks st.
+  Proof. unfold trk_set_oldest_timestamp. destruct (t_oldest st); reflexivity. Qed.
+
   Lemma insert_or_update_spec (st : tracker) m new : inv st ->
     (older_than_track st m (tr_lu new) /\ trk_insert_or_update st m new = (st, [], Some (Py ValueError))) \/
     (~ older_than_track st m (tr_lu new) /\
@@ -458,6 +471,7 @@ Section Tracker.
         rewrite del_without by apply I.
         rewrite set_absent by (rewrite get_without, Z.eqb_refl; reflexivity). reflexivity.
     - right. split; [intros (o & E & _); discriminate|]. unfold trk_insert_track.
+      rewrite set_oldest_tracks, set_oldest_absorb.
       rewrite set_absent by assumption. rewrite without_id; [reflexivity|].
       intros k Ik. destruct (Z.eqb_spec m k); [subst; apply get_none_iff in G; tauto | reflexivity].
   Qed.
